@@ -288,7 +288,7 @@ _add(PropertySpec(
 _add(PropertySpec(
     'C05', 'other',
     functions=['ampycloud.data.AbstractChunk._cleanup_pdf', 'ampycloud.data.CeiloChunk.find_slices', 'ampycloud.data.CeiloChunk._setup_sligrolay_pdf',
-               'ampycloud.layer.ncomp_from_gmm'],
+               'ampycloud.layer.ncomp_from_gmm', 'ampycloud.layer.best_gmm'],
     lemmas=['cnt_union', 'cnt_ext', 'cnt_mono', 'prop.C05.layer_ids_injective'],
     extras=[_fs.c05], bounded=_bounded('c05'),
     explanation=('PROVED (F): after construction no method writes any column of the private hit table other than slice_id / group_id / '
@@ -302,7 +302,11 @@ _add(PropertySpec(
                  '_setup_sligrolay_pdf: one table row per set, cluster_id = set id.  PROVED (P, block contract): the re-merge pass of ncomp_from_gmm '
                  '(real statements from `base_comp_heights = ...` to the end; the mixture fit before it is replaced by an ASSUMED mid-condition) hands '
                  'back one label in 0..K-1 (K <= 3) per value and a component count equal to the number of distinct labels (the built-in '
-                 'assert never fails).  BOUNDED (B): the same clause for groups and layers (find_groups / '
+                 'assert never fails).  PROVED (P, loop invariant): best_gmm in the default mode "delta" (one function of the prefix the block contract '
+                 'assumes away) returns the index of one of the models scored (so K = ncomp[index] <= ncomp_max), never one whose score is NaN, and a '
+                 'model other than the simplest one only for a score strictly below gain * the score of an earlier model; an unknown mode is '
+                 "refused with AmpycloudError exactly when a second model is looked at (mode 'prob' / scores2nrl: not under contract).  "
+                 'BOUNDED (B): the same clause for groups and layers (find_groups / '
                  'find_layers are not under a full-mode contract), that the tables list exactly the ids present, n_<which> and the k-components-k-layers '
                  'clause depend on scikit-learn labels and pandas fills; checked natively on the scene grammar.'),
     assumptions=[A_FRAME, 'clustering / mixture model return one label per sample, mixture labels in 0..2 (library contracts)',
